@@ -101,6 +101,9 @@ def draw_spec(rng, tier="quick"):
     spec = dict(enzyme=ename, chain=chain, scar=scar, plasmids=plasmids, unused=unused, ids_mode=ids_mode, nrefs=nrefs,
                 shared_ref=shared_ref, twice=(rng.random() < 0.1), own_source=(rng.random() < 0.35),
                 topology=rng.choice(["circular", "circular", "Circular", None]), feat_seed=rng.randrange(10 ** 9),
+                # histories: the wrappers are asked about themselves before being assembled; the annotations mapping of a
+                # record is replaced after construction (no topology key at all)
+                prequery=rng.choice([None, None, "valid", "overhangs", "target", "all"]), replace_annotations=(rng.random() < 0.3),
                 order_seed=rng.randrange(10 ** 9))
     for j, p in enumerate(plasmids + ([unused] if unused else [])):
         n = len(p["text"])
@@ -240,6 +243,8 @@ def build(ns, spec, override=None):
         if refs:
             ann["references"] = refs
         rec = CircularRecord(Seq(text), id=ids[j], name=names[j], features=feats, annotations=ann)
+        if spec.get("replace_annotations") and spec["topology"] is None:
+            rec.annotations = {k_: v_ for k_, v_ in rec.annotations.items() if k_ != "topology"}    # a new mapping, set by the caller
         records.append(rec)
         ents.append((Vec if p["role"] == "vector" else Mod)(rec))
     nplas = len(spec["plasmids"])
@@ -260,11 +265,29 @@ class Scenario(object):
     def describe(self):
         s = self.spec
         return dict(enzyme=s["enzyme"], chain=s["chain"], scar=s["scar"], ids=s["ids_mode"], refs=s["nrefs"], shared_ref=s["shared_ref"],
+                    prequery=s.get("prequery"), replace_annotations=s.get("replace_annotations"),
                     twice=s["twice"], unused=bool(s["unused"]), own_source=s["own_source"], topology=s["topology"],
                     plasmids=[dict(role=p["role"], rot=p["rot"], case=p["case"], length=len(p["text"])) for p in s["plasmids"]],
                     records=[str(x.record.seq) for x in self.ents], supplied=[x.record.name for x in self.supplied])
 
+    def prequery(self):
+        """what a user does before assembling: ask the wrappers about themselves (the answers are not used)"""
+        how = self.spec.get("prequery")
+        if not how:
+            return
+        for x in self.ents:
+            try:
+                if how in ("valid", "all"):
+                    x.is_valid()
+                if how in ("overhangs", "all"):
+                    x.overhang_start(), x.overhang_end()
+                if how in ("target", "all"):
+                    x.target_sequence()
+            except Exception:
+                pass
+
     def run(self, **kw):
+        self.prequery()
         return ba.run_assembly(self.vec, self.supplied, **kw)
 
 
@@ -448,6 +471,19 @@ def sweep(ctx, ns, which, count=None):
                 pb.append("ends with %r, the %s inputs with %r" % (got[:2], "all-upper-case" if which == "case" else "unrotated", gref[:2]))
             elif prod is not None and not ba.is_rotation(str(prod.seq), str(pref.seq)):
                 pb.append("product differs (beyond rotation and letter case) from that of the %s inputs" % ("all-upper-case" if which == "case" else "unrotated"))
+            if not pb and which == "rotation" and gref[0] == "product":
+                # rotation applied by the library itself to records that have been typed before (the wrappers of the
+                # unrotated scenario were just assembled): >> on a used record, new wrappers, same product
+                evals += 1
+                try:
+                    moved = {id(x): type(x)(x.record >> p_["rot"]) for x, p_ in zip(ref.ents, (spec["plasmids"] + ([spec["unused"]] if spec["unused"] else [])))}
+                    gl, pl, wl = ba.run_assembly(moved[id(ref.vec)], [moved[id(m_)] for m_ in ref.supplied])
+                    if gl[0] != "product" or not ba.is_rotation(str(pl.seq), str(pref.seq)):
+                        pb.append("records rotated with >> after having been typed assemble to %r, the unrotated ones to a product" % (gl[:2],))
+                except Exception as e_:
+                    pb.append("rotating typed records with >> and assembling them raised %r" % (e_,))
+            if pb:
+                pass
             elif prod is not None and which == "rotation":
                 # same inherited features (through the nucleotides they denote), whatever the rotation of the inputs
                 a_, b_ = oracle_features(sc, got, prod), oracle_features(ref, gref, pref)
@@ -458,6 +494,30 @@ def sweep(ctx, ns, which, count=None):
             evals += 1
             fn = dict(sequence=oracle_sequence, features=oracle_features, provenance=oracle_provenance, citations=oracle_citations)[which]
             pb = fn(sc, got, prod)
+            if which == "features" and not pb and got[0] == "product" and sc.expected_feats:
+                # edit between two calls with the same wrappers: a feature of an input is relabelled (and one removed);
+                # the second product must show the records as they are *now*
+                evals += 1
+                lab = sc.expected_feats[0][0]
+                gone = sc.expected_feats[-1][0] if len(sc.expected_feats) > 1 else None
+                for x in sc.ents:
+                    keep = []
+                    for f in x.record.features:
+                        l_ = f.qualifiers.get("label", [""])[0]
+                        if l_ == lab:
+                            f.qualifiers["label"] = [lab + "-relabelled"]
+                        if gone is not None and l_ == gone:
+                            continue
+                        keep.append(f)
+                    x.record.features[:] = keep
+                exp2 = [((l_ + "-relabelled") if l_ == lab else l_, t_, img) for (l_, t_, img) in sc.expected_feats if l_ != gone]
+                saved, sc.expected_feats = sc.expected_feats, exp2
+                got2, prod2, w2 = ba.run_assembly(sc.vec, sc.supplied)
+                pb2 = oracle_features(sc, got2, prod2)
+                sc.expected_feats = saved
+                if pb2:
+                    pb = ["after relabelling %s%s in the input and assembling again with the same wrappers: %s" % (
+                        lab, (" and removing %s" % gone) if gone else "", pb2[0])]
         if sc.spec["nrefs"] or which != "citations":
             distinct.add(key)
         if pb:
